@@ -30,7 +30,7 @@ class FrameSrc:
 
 
 USE_MODES = ["list", "callback", "gen_full", "gen_partial_keep",
-             "gen_partial_close", "gen_partial_drop"]
+             "gen_partial_close", "gen_partial_drop", "gen_deferred"]
 
 
 class Engine:
@@ -148,6 +148,7 @@ class Engine:
             out["probes"]["params_rejected"] = 1
             return None
         keep = []
+        deferred = []   # (generator requested earlier, its fresh result, ui)
 
         def norm(toks):
             return [(tuple(f[0] for f in t[0]), t[1], t[2]) for t in toks]
@@ -166,9 +167,18 @@ class Engine:
             fresh = norm(StreamTokenizer(*args).tokenize(FrameSrc(pat, ui)))
             mode = u["mode"]
             if ui == len(sc["uses"]) - 1:
-                mode = "list" if mode.startswith("gen_partial") else mode
+                mode = "list" if mode.startswith("gen_partial") \
+                    or mode == "gen_deferred" else mode
             out["steps"] += 1
             src = FrameSrc(pat, ui)
+            if mode == "gen_deferred":
+                # the generator is requested now but consumed only after the
+                # next use of the tokenizer has completed
+                deferred.append((reused.tokenize(src, generator=True), fresh,
+                                 ui))
+                out["faults"]["deferred_generator"] = \
+                    out["faults"].get("deferred_generator", 0) + 1
+                continue
             if mode == "list":
                 got = norm(reused.tokenize(src))
                 want = fresh
@@ -235,6 +245,22 @@ class Engine:
                                     sc["uses"][:ui]]), "C20.1:tokenizer")
             if ui >= 1 and want:
                 out["nontrivial"] = True
+            # consume generators that were requested before this use; only
+            # when no other generator is suspended mid-stream (resuming one
+            # after reuse is outside the property)
+            if deferred and mode in ("list", "callback", "gen_full") \
+                    and not keep:
+                for g_, fresh_, ui_ in deferred:
+                    got_ = norm(list(g_))
+                    if got_ != fresh_:
+                        return self._V(
+                            "C20.1", "a generator requested at use %d and "
+                            "consumed after use %d (%s) delivered %r, a "
+                            "fresh tokenizer %r" % (
+                                ui_, ui, mode, [(t[1], t[2]) for t in got_],
+                                [(t[1], t[2]) for t in fresh_]),
+                            "C20.1:deferred_generator")
+                deferred = []
         return None
 
     # ---------------------------------------------------------------- split
@@ -481,6 +507,14 @@ class Engine:
             s.close()
             out["faults"]["close_reopen"] = \
                 out["faults"].get("close_reopen", 0) + 1
+        if sc["as_region"] and data:
+            # not open: move the cursor, close again, reopen -> the beginning
+            try:
+                s.position = min(len(data) // (sw * ch), 1 + sc["nwin2"])
+            except Exception:
+                pass
+            s.close()
+            out["faults"]["seek_while_closed"] = 1
         s.open()
         b = s.read(bsz)
         want = data[:bsz * sw * ch] or None
